@@ -54,6 +54,7 @@ def shrink(run):
 
 
 sample_of = l0common.sample_of
+preload = l0common.preload
 
 LEVEL_TEXT = ('Seeded search over operation histories; after every '
               'operation every edge of every leaf is compared with the '
